@@ -11,6 +11,7 @@ import vlib
 
 TABLES = ["srgb.from16", "srgb.to16", "adobergb.from16", "adobergb.to16", "prophotorgb.from16", "prophotorgb.to16"]
 OTHERS = ["srgb.LineariseColor", "displayp3.EncodeColor"]
+STATELESS = ["srgb.xyz", "adobergb.xyz", "prophotorgb.xyz", "displayp3.xyz", "ciexyz.lab", "ciexyz.adapt", "ciexyz.primaries", "icc.strings"]
 ROLE = {1: "entry", 2: "build", 3: "publish", 4: "ret", 5: "ret"}
 
 
@@ -63,7 +64,8 @@ def check(pid, tier, args):
     reps = 2 if tier == "quick" else 40
     for (n, p) in ung:
         for rep in range(reps):
-            targets = TABLES if rep % 2 == 0 else OTHERS + ["adobergb.from16", "prophotorgb.to16", "adobergb.to16", "prophotorgb.from16"]
+            targets = (TABLES if rep % 2 == 0 else OTHERS + ["adobergb.from16", "prophotorgb.to16", "adobergb.to16", "prophotorgb.from16"]) + \
+                (STATELESS if rep % 2 == 0 else STATELESS[::-1])
             jobs.append(("ungated", "N=%d GOMAXPROCS=%d" % (n, p),
                          [race_bin, "-ungated", ",".join(targets), "-n", str(n), "-procs", str(p), "-file", img]))
     infeasible = 0
@@ -151,6 +153,21 @@ def check(pid, tier, args):
         run.violation({"finding_key": None, "event": ev},
                       "%s loader on %s while another loads %s (schedule %s): returned %s, alone it returns %s" % (
                           ev["loader"], ev["file"], ev["other"], ev["sched"], ev["got"], ev["solo"]))
+    # 5. every public entry point that reaches a lazily built table, as the first call of a fresh
+    # process (under two GOMAXPROCS values): it returns what it returns later and does not panic
+    import colour
+    fu = colour.first_use_events(drive, "de")
+    fpath = os.path.join(vlib.scratch(), "firstuse.ndjson")
+    open(fpath, "w").write("\n".join(fu) + "\n")
+    results, rejects, lines = vlib.validate_trace("TraceColour", "TraceColour.cfg", fpath, shards=1, heap="1g")
+    for res in results:
+        run.add_tlc("TraceColour/firstuse", res)
+    run.cov["first_use_processes"] = len(lines)
+    run.cov["traces_validated_against_impl"] += len(lines)
+    for n, pr in rejects[:6]:
+        ev = json.loads(lines[n])
+        run.violation({"finding_key": None, "event": ev}, colour.FIRSTUSE_MSG % (
+            ev["space"], ev["entry"], ev["gomaxprocs"], ev["first"][:8], ev["again"][:8], ev["ref"][:8], ev.get("panic_msg", "")))
     run.sample({"forced_schedule": s2[0], "tables": TABLES})
     run.sample(trials[0])
     run.cov["bounds"] = {"model": "N=2,3 goroutines, all interleavings", "ungated": ung, "repetitions": reps}
